@@ -1128,3 +1128,60 @@ def case_materialize_reshape_literal_zero():
 
 
 CASES["materialize_reshape_literal_zero"] = case_materialize_reshape_literal_zero
+
+
+def case_materialize_reshape_search():
+    """bounded search on the real optimizer + onnxruntime: Reshape(x, s) with a dynamic target s, annotated data / output shapes that share
+    symbols; every binding of the symbols to {0, 1, 2, 3} for which the original model runs must run on the optimized model with the same shape"""
+    import itertools
+    import onnxruntime as ort
+    import onnxscript.optimizer
+    ort.set_default_logger_severity(4)
+    dims = [2, 4, "B", "T", "S"]
+    bad = tried = 0
+    shapes = [list(p) for r in (2, 3) for p in itertools.product(dims, repeat=r)]
+    pairs = [(d, o) for d in shapes for o in shapes if len(d) == len(o) and sum(isinstance(x, str) for x in o) in (1, 2) and set(x for x in o if isinstance(x, str)) & set(x for x in d if isinstance(x, str))]
+    for dshape, oshape in pairs[::7]:
+        g = helper.make_graph([helper.make_node("Reshape", ["x", "s"], ["y"])], "g",
+                              [vi("x", TensorProto.FLOAT, dshape), vi("s", TensorProto.INT64, [len(oshape)])], [vi("y", TensorProto.FLOAT, oshape)])
+        m = helper.make_model(g, opset_imports=[helper.make_opsetid("", 18)], ir_version=9)
+        try:
+            o = onnxscript.optimizer.optimize(m)
+        except Exception as e:  # noqa: BLE001
+            print(f"Reshape(x{dshape}, s) -> y{oshape}: optimize() raises {type(e).__name__}: {str(e)[:120]}")
+            bad += 1
+            continue
+        if [n.op_type for n in o.graph.node] == ["Reshape"] and any(i.name == "s" for i in o.graph.input) and o.graph.node[0].input[1] == "s":
+            continue   # not rewritten
+        syms = sorted({x for x in dshape + oshape if isinstance(x, str)})
+        for vals in itertools.product((0, 1, 2, 3), repeat=len(syms)):
+            rho = dict(zip(syms, vals))
+            dv = [rho.get(x, x) for x in dshape]
+            ov = [rho.get(x, x) for x in oshape]
+            if int(np.prod(dv)) != int(np.prod(ov)):
+                continue
+            feeds = {"x": np.zeros(dv, np.float32), "s": np.array(ov, dtype=np.int64)}
+            try:
+                before = ort.InferenceSession(m.SerializeToString(), providers=["CPUExecutionProvider"]).run(None, feeds)[0]
+            except Exception:  # noqa: BLE001
+                continue   # the original does not accept this input
+            tried += 1
+            try:
+                names = {i.name for i in o.graph.input}
+                after = ort.InferenceSession(o.SerializeToString(), providers=["CPUExecutionProvider"]).run(None, {k: v for k, v in feeds.items() if k in names})[0]
+            except Exception as e:  # noqa: BLE001
+                print(f"Reshape(x{dshape}, s) -> y{oshape} with {rho}: original gives shape {before.shape}; the optimized model "
+                      f"({[(n.op_type, [a.i for a in n.attribute if a.name == 'allowzero']) for n in o.graph.node]}) fails: {str(e).splitlines()[0][:160]}")
+                bad += 1
+                break
+            if before.shape != after.shape:
+                print(f"Reshape(x{dshape}, s) -> y{oshape} with {rho}: original shape {before.shape}, optimized {after.shape}")
+                bad += 1
+                break
+        if bad >= 3:
+            break
+    print(f"materialize_reshape_search: {tried} runs compared")
+    return bad
+
+
+CASES["materialize_reshape_search"] = case_materialize_reshape_search
